@@ -6,8 +6,13 @@
 pub mod debversion {
     use super::*;
 
-    #[verifier::external_body]
-    pub struct Version { _p: () }
+    /// the dependency's public fields (debversion 0.4: epoch, upstream_version, debian_revision); the
+    /// ordering is NOT structural on them ("1.0" == "0:1.0" == "1.0-0"), it is the abstract vcmp below
+    pub struct Version {
+        pub epoch: Option<u32>,
+        pub upstream_version: String,
+        pub debian_revision: Option<String>,
+    }
 
     pub uninterp spec fn vcmp(a: &Version, b: &Version) -> int;
 
